@@ -3,8 +3,11 @@ driver, diffing, delta-debugging, evidence files, verdict lines."""
 import os, sys, json, time, subprocess, hashlib, concurrent.futures as cf
 
 HERE = os.path.dirname(os.path.dirname(os.path.abspath(__file__)))
-REPLAYS = os.path.join(HERE, "replays")
-EVIDENCE = os.path.join(HERE, "evidence")
+# VERIF_OUT redirects evidence/replays (used when a check is run against a scratch tree, e.g. a
+# seeded fault, so that the committed evidence of the real tree is not overwritten)
+_OUT = os.environ.get("VERIF_OUT", HERE)
+REPLAYS = os.path.join(_OUT, "replays")
+EVIDENCE = os.path.join(_OUT, "evidence")
 NCPU = os.cpu_count() or 4
 M64 = (1 << 64) - 1
 
